@@ -1,5 +1,7 @@
 package graphql
 
+import "reflect"
+
 type SchemaConfig struct {
 	Query        *Object
 	Mutation     *Object
@@ -96,6 +98,9 @@ func NewSchema(config SchemaConfig) (Schema, error) {
 	initialTypes = append(initialTypes, config.Types...)
 
 	for _, ttype := range initialTypes {
+		if ttype == nil || reflect.ValueOf(ttype).IsNil() {
+			continue
+		}
 		if ttype.Error() != nil {
 			return schema, ttype.Error()
 		}
